@@ -6,6 +6,7 @@ import (
 	"sync"
 
 	"capnproto.org/go/capnp/v3/internal/errors"
+	"capnproto.org/go/capnp/v3/internal/verifhook"
 )
 
 // A Promise holds the result of an RPC call.  Only one of Fulfill,
@@ -194,17 +195,21 @@ func (p *Promise) resolve(r Ptr, e error) {
 			p.callsStopped = make(chan struct{})
 		}
 		p.mu.Unlock()
+		verifhook.Yield(120)
 		res := resolution{p.method, r, e}
 		for path, row := range p.clients {
 			t := path.transform()
 			for i := range row {
+				verifhook.Yield(121)
 				row[i].promise.Fulfill(res.client(t))
 				row[i].promise = nil
 			}
 		}
 		if p.callsStopped != nil {
+			verifhook.Yield(122)
 			<-p.callsStopped
 		}
+		verifhook.Yield(123)
 		p.mu.Lock()
 	}
 
@@ -238,6 +243,7 @@ func (p *Promise) Join(from *Answer) {
 	p.caller = nil
 
 	parent := from.f.promise
+	verifhook.Yield(124)
 	parent.mu.Lock()
 traversal:
 	for {
@@ -252,6 +258,7 @@ traversal:
 				p.joined = make(chan struct{})
 			}
 			p.mu.Unlock()
+			verifhook.Yield(125)
 			<-r
 			p.mu.Lock()
 			parent.mu.Lock()
@@ -262,6 +269,7 @@ traversal:
 				p.joined = make(chan struct{})
 			}
 			p.mu.Unlock()
+			verifhook.Yield(126)
 			<-j
 			p.mu.Lock()
 			parent.mu.Lock()
@@ -273,6 +281,7 @@ traversal:
 		case parent.isJoined():
 			next := parent.next
 			parent.mu.Unlock()
+			verifhook.Yield(127)
 			parent = next
 			parent.mu.Lock()
 		default:
@@ -285,6 +294,7 @@ traversal:
 			p.joined = make(chan struct{})
 		}
 		p.mu.Unlock()
+		verifhook.Yield(128)
 		<-p.callsStopped
 		p.mu.Lock()
 		p.callsStopped = nil
@@ -321,6 +331,7 @@ func (p *Promise) Answer() *Answer {
 // This method is typically used in a ReleaseFunc.
 func (p *Promise) ReleaseClients() {
 	<-p.resolved
+	verifhook.Yield(160)
 	p.mu.Lock()
 	if p.releasedClients {
 		p.mu.Unlock()
@@ -330,6 +341,7 @@ func (p *Promise) ReleaseClients() {
 	for p.isJoined() {       // everything in chain will be joined or resolved (leaf)
 		q := p.next
 		p.mu.Unlock()
+		verifhook.Yield(161)
 		p = q
 		p.mu.Lock()
 	}
@@ -341,6 +353,7 @@ func (p *Promise) ReleaseClients() {
 	clients := p.clients
 	p.clients = nil
 	p.mu.Unlock()
+	verifhook.Yield(162)
 	for _, row := range clients {
 		for _, cp := range row {
 			cp.client.Release()
@@ -417,6 +430,7 @@ func (ans *Answer) Field(off uint16, def []byte) *Future {
 // PipelineSend starts a pipelined call.
 func (ans *Answer) PipelineSend(ctx context.Context, transform []PipelineOp, s Send) (*Answer, ReleaseFunc) {
 	p := ans.f.promise
+	verifhook.Yield(130)
 	p.mu.Lock()
 traversal:
 	for {
@@ -444,7 +458,9 @@ traversal:
 		p.ongoingCalls++
 		caller := p.caller
 		p.mu.Unlock()
+		verifhook.Yield(132)
 		ans, release := caller.PipelineSend(ctx, transform, s)
+		verifhook.Yield(133)
 		p.mu.Lock()
 		p.ongoingCalls--
 		if p.ongoingCalls == 0 && p.callsStopped != nil {
@@ -455,6 +471,7 @@ traversal:
 	case p.isPendingResolution():
 		// Block new calls until resolved.
 		p.mu.Unlock()
+		verifhook.Yield(134)
 		select {
 		case <-p.resolved:
 		case <-ctx.Done():
@@ -465,6 +482,7 @@ traversal:
 	case p.isResolved():
 		r := p.resolution()
 		p.mu.Unlock()
+		verifhook.Yield(135)
 		return r.client(transform).SendCall(ctx, s)
 	default:
 		panic("unreachable")
@@ -474,6 +492,7 @@ traversal:
 // PipelineRecv starts a pipelined call.
 func (ans *Answer) PipelineRecv(ctx context.Context, transform []PipelineOp, r Recv) PipelineCaller {
 	p := ans.f.promise
+	verifhook.Yield(140)
 	p.mu.Lock()
 traversal:
 	for {
@@ -502,7 +521,9 @@ traversal:
 		p.ongoingCalls++
 		caller := p.caller
 		p.mu.Unlock()
+		verifhook.Yield(142)
 		pcall := caller.PipelineRecv(ctx, transform, r)
+		verifhook.Yield(143)
 		p.mu.Lock()
 		p.ongoingCalls--
 		if p.ongoingCalls == 0 && p.callsStopped != nil {
@@ -513,6 +534,7 @@ traversal:
 	case p.isPendingResolution():
 		// Block new calls until resolved.
 		p.mu.Unlock()
+		verifhook.Yield(144)
 		select {
 		case <-p.resolved:
 		case <-ctx.Done():
@@ -524,6 +546,7 @@ traversal:
 	case p.isResolved():
 		res := p.resolution()
 		p.mu.Unlock()
+		verifhook.Yield(145)
 		return res.client(transform).RecvCall(ctx, r)
 	default:
 		panic("unreachable")
@@ -565,10 +588,12 @@ func (f *Future) Done() <-chan struct{} {
 func (f *Future) Struct() (Struct, error) {
 	p := f.promise
 	<-p.resolved
+	verifhook.Yield(165)
 	p.mu.Lock()
 	for p.isJoined() {
 		q := p.next
 		p.mu.Unlock()
+		verifhook.Yield(166)
 		p = q
 		p.mu.Lock()
 	}
@@ -583,6 +608,7 @@ func (f *Future) Struct() (Struct, error) {
 // should not call Close.
 func (f *Future) Client() *Client {
 	p := f.promise
+	verifhook.Yield(150)
 	p.mu.Lock()
 traversal:
 	for {
@@ -590,11 +616,13 @@ traversal:
 		case p.isPendingJoin():
 			j := p.joined
 			p.mu.Unlock()
+			verifhook.Yield(151)
 			<-j
 			p.mu.Lock()
 		case p.isJoined():
 			q := p.next
 			p.mu.Unlock()
+			verifhook.Yield(152)
 			p = q
 			p.mu.Lock()
 		default:
@@ -620,6 +648,7 @@ traversal:
 		return c
 	case p.isPendingResolution():
 		p.mu.Unlock()
+		verifhook.Yield(153)
 		<-p.resolved
 		p.mu.Lock()
 		fallthrough
